@@ -283,6 +283,20 @@ def dump_tree(store, interner: Interner):
     try:
         root = zarr.open_group(store, mode="r")
     except Exception:
+        if isinstance(store, (str, Path)) and os.path.isdir(str(store)):
+            # a directory that exists but holds no zarr group: for a path "the location is occupied" (check_for_geff), and an
+            # append-mode open makes it the empty root group -- the empty group is its abstraction
+            ch = []
+            for name in sorted(os.listdir(str(store))):
+                sub = os.path.join(str(store), name)
+                if not os.path.isdir(sub):
+                    continue
+                try:
+                    child = zarr.open(sub, mode="r")
+                except Exception:
+                    continue
+                ch.append((name, dump_node(child, interner, False)))
+            return {"k": "G", "attrs": [], "ch": ch}
         return None
     return dump_node(root, interner, True)
 
